@@ -5,6 +5,7 @@
    judges the implementation's traces. *)
 From Verif Require Import Base.Prelude Model.Stack Spec.StackObs Spec.BindReg Spec.C03Spec
   Proofs.BindRegProofs Proofs.C03Proofs.
+From Verif Require Import Model.StackX Spec.StackXSpec.
 
 (* For every history of operations (local tree construction with read-only and writable
    functions, connects, discovery replies and notifications, bind / unbind calls, local data
@@ -22,6 +23,12 @@ From Verif Require Import Base.Prelude Model.Stack Spec.StackObs Spec.BindReg Sp
 Theorem C03_trace_accepted : forall ops, accepted (judge minit (snd (run init ops))) = true.
 Proof. exact run_accepted. Qed.
 Print Assumptions C03_trace_accepted.
+
+(* The same for histories in which a teardown of peer p is overlapped by a bind / unbind /
+   subscribe / unsubscribe call of another peer q (Model/StackX.v [During]). *)
+Theorem C03_overlap_trace_accepted : forall xops, xaccepted (xjudge mon minit (snd (xrun init xops))) = true.
+Proof. exact xrun_accepted. Qed.
+Print Assumptions C03_overlap_trace_accepted.
 
 (* authorisation follows the binding registry immediately: after every history the binding test
    of the write gate equals the test against the monitor's registry, which is a function of
